@@ -13,7 +13,7 @@ LEVEL_TEXT = ("Bounded verification by symbolic execution of the real typing cod
               "both overhangs, the target and the placeholder are letter-for-letter the same.  Any two rotations of a circle "
               "are rotations of the canonical one and rotations compose (C13), so this covers every pair.  Bounded claim.")
 LEVEL_NOTE = ("Bounds: n = F+1 quick (one class per pattern shape + 6 enzyme geometries), n in [F, F+3] thorough (all distinct "
-              "patterns, all geometries); letters over ACGT. The assembly clause rests on C03/C19 (the walk reads overhangs and "
+              "patterns, all geometries); letters over ACGT; plus generic classes at n = F+8 (room for a third recognition site inside the target: the illegal-site screen must not depend on the origin either). The assembly clause rests on C03/C19 (the walk reads overhangs and "
               "fragments only) plus C01's end-to-end rotated runs; the 'every registry plasmid' clause (2-10 kb concrete "
               "records) is outside what a solver query can cover and is not claimed. Trusted: z3, CPython, symx models.")
 TECHNIQUE = "bounded symbolic execution of the real Python source (symx) with z3; metamorphic relation r vs r>>k with residue case split; replay on the real stack"
